@@ -10,6 +10,7 @@ EXPLANATION = ("C19: component bookkeeping and separator discipline of make_rela
 NOT_DECIDED = "that the result resolves to the target for all depth combinations (value-level)."
 
 RULES = {
+    "C19.RG": lambda ctx: __import__("rules.foundations", fromlist=["x"]).no_global_state(ctx, "C19.RG"),
     "C19.RL": lambda ctx: __import__("rules.common", fromlist=["x"]).loop_exit_rule(ctx, "C19.RL", {'utils::find_common_prefix_of_sorted_vec': 1}),
     "C19.R1": lambda ctx: pathrules.components(ctx, "C19.R1") and None,
     "C19.R2": lambda ctx: pathrules.same_prefix(ctx, "C19.R2"),
